@@ -73,7 +73,7 @@ def shift_at(d, j):
 
 
 class _SpaceGetter(Contract):
-    prop = ("C01",)
+    prop = ("C01", "C10")
     self_schema = DS + "#c01"
     numpy = "precise"
     returns = F1
@@ -107,7 +107,7 @@ class GetUpperBounds(_SpaceGetter):
 @register
 class ConvertNormalizeToArray(Contract):
     targets = (DS + ".convert_dict_to_array",)
-    prop = ("C01",)
+    prop = ("C01", "C10")
     self_schema = DS + "#c01"
     numpy = "precise"
     params = {"design_values": TVal}
@@ -159,7 +159,7 @@ KEPT_SCALARS = ("name", "f_type", "expr", "force_real", "special_repr", "has_def
 
 
 class _StringGlue(Contract):
-    prop = ("C01",)
+    prop = ("C01", "C10")
     trusted = True
     description = "assumed: builds the textual expression / input names of a linear function (strings only, no effect on the state)"
 
@@ -206,7 +206,7 @@ def shift_witness(c):
 
 class _Normalize(Contract):
     targets = (LIN + ".normalize",)
-    prop = ("C01",)
+    prop = ("C01", "C10")  # C10: normalization of a linear function evaluates / differentiates exactly, operand untouched
     numpy = "precise"
     c01 = True
     frame_arrays = True
@@ -812,7 +812,7 @@ class NormalizeLemmas(Contract):
     RA = A diag(s) is C02's normalize_grad applied to the rows of A (per component, real arithmetic)."""
 
     targets = ()
-    prop = ("C01",)
+    prop = ("C01", "C10")
     lemma = True
 
     def lemmas(self):
